@@ -481,4 +481,91 @@ theorem rowAction_exact (r : Row) (s : St) :
     exact ⟨⟨0, rfl⟩, by simp [ha]⟩
 
 
+/-! ### the buckets of a `split_random` row -/
+
+/-- one leaving edge: an unnamed bucket is new, a named bucket is new unless the name is in use (then
+the bucket takes the edge's target) -/
+def bstep (acc : List (Str × Target) × Nat) (e : OutEdge) : List (Str × Target) × Nat :=
+  if (bucketName e.cond).isEmpty then (acc.1 ++ [("#".toList ++ RefFlow.natStr acc.2, e.tgt)], acc.2 + 1)
+  else if acc.1.any (fun p => decide (p.1 = bucketName e.cond)) then
+    (acc.1.map (fun p => if p.1 = bucketName e.cond then (p.1, e.tgt) else p), acc.2)
+  else (acc.1 ++ [(bucketName e.cond, e.tgt)], acc.2)
+
+/-- the buckets (name, target) of the edges leaving a `split_random` row, and the number of unnamed
+ones -/
+def bucketsOf (es : List OutEdge) : List (Str × Target) × Nat := es.foldl bstep ([], 0)
+
+theorem bucketsOf_append (es : List OutEdge) (e : OutEdge) : bucketsOf (es ++ [e]) = bstep (bucketsOf es) e := by
+  simp [bucketsOf, List.foldl_append]
+
+/-- names of corresponding buckets: the same explicit name (none of the generated forms), or the two
+generated names -/
+def NameRel (cn bn : Str) : Prop :=
+  (cn = bn ∧ bn ≠ [] ∧ bn.take 7 ≠ "Bucket ".toList ∧ bn.head? ≠ some '#') ∨
+  (cn.take 7 = "Bucket ".toList ∧ bn.head? = some '#')
+
+theorem bucketNameOk_spec {nm : Str} (h : bucketNameOk nm = true) (hne : nm ≠ []) :
+    nm.take 7 ≠ "Bucket ".toList ∧ nm.head? ≠ some '#' := by
+  unfold bucketNameOk at h
+  have : nm.isEmpty = false := by cases nm with | nil => exact absurd rfl hne | cons _ _ => rfl
+  rw [this, Bool.false_or] at h
+  simp only [Bool.not_eq_true', Bool.or_eq_false_iff, decide_eq_false_iff_not] at h
+  exact h
+
+/-- an explicit bucket name is found on one side iff it is found on the other -/
+theorem NameRel.eq_iff {cn bn nm : Str} (h : NameRel cn bn) (h1 : nm.take 7 ≠ "Bucket ".toList)
+    (h2 : nm.head? ≠ some '#') : cn = nm ↔ bn = nm := by
+  rcases h with ⟨e, _, _, _⟩ | ⟨e1, e2⟩
+  · rw [e]
+  · constructor
+    · intro e; rw [e] at e1; exact absurd e1 h1
+    · intro e; rw [e] at e2; exact absurd e2 h2
+
+theorem forall2_map_mem {α β γ δ} {R : α → β → Prop} {S : γ → δ → Prop} {f : α → γ} {g : β → δ} :
+    ∀ {l1 : List α} {l2 : List β}, List.Forall₂ R l1 l2 → (∀ a b, a ∈ l1 → R a b → S (f a) (g b)) →
+      List.Forall₂ S (l1.map f) (l2.map g) := by
+  intro l1 l2 h
+  induction h with
+  | nil => intro _; exact .nil
+  | cons hab _ ih =>
+    intro himp
+    exact .cons (himp _ _ (by simp) hab) (ih (fun a b ha => himp a b (by simp [ha])))
+
+theorem forall2_any_iff {α β} {R : α → β → Prop} {p : α → Bool} {q : β → Bool} :
+    ∀ {l1 : List α} {l2 : List β}, List.Forall₂ R l1 l2 → (∀ a b, R a b → p a = q b) → l1.any p = l2.any q := by
+  intro l1 l2 h
+  induction h with
+  | nil => intro _; rfl
+  | cons hab _ ih => intro himp; simp only [List.any_cons, himp _ _ hab, ih himp]
+
+theorem bstep_tgt (acc : List (Str × Target) × Nat) (e : OutEdge) (P : Target → Prop) (hP : P e.tgt)
+    (h : ∀ b ∈ acc.1, P b.2) : ∀ b ∈ (bstep acc e).1, P b.2 := by
+  unfold bstep
+  intro b hb
+  split at hb
+  · simp only [List.mem_append, List.mem_singleton] at hb
+    rcases hb with hb | hb
+    · exact h b hb
+    · rw [hb]; exact hP
+  · split at hb
+    · obtain ⟨a, ha, e1⟩ := List.mem_map.mp hb
+      split at e1
+      · rw [← e1]; exact hP
+      · rw [← e1]; exact h a ha
+    · simp only [List.mem_append, List.mem_singleton] at hb
+      rcases hb with hb | hb
+      · exact h b hb
+      · rw [hb]; exact hP
+
+/-- the target of a bucket is the target of one of the edges -/
+theorem buckets_tgt (es : List OutEdge) : ∀ b ∈ (bucketsOf es).1, ∃ e ∈ es, e.tgt = b.2 := by
+  induction es using List.reverseRecOn with
+  | nil => intro b hb; cases hb
+  | append_singleton es e ih =>
+    rw [bucketsOf_append]
+    refine bstep_tgt _ e (fun t => ∃ e' ∈ es ++ [e], e'.tgt = t) ⟨e, by simp, rfl⟩ ?_
+    intro b hb
+    obtain ⟨e', he', h'⟩ := ih b hb
+    exact ⟨e', by simp [he'], h'⟩
+
 end Rpft.CoreSheet
